@@ -348,7 +348,8 @@ class LocalShare:
 
                 # Move all candidates to the attic until we are under the quota
                 for pkgUnused, _, pkgSize, pkgBuildId in sorted(candidates):
-                    if (not pkgUnused or not pruneUnused) and (repoSize <= self.__quota):
+                    if (not pkgUnused or not pruneUnused) and \
+                       ((self.__quota is None) or (repoSize <= self.__quota)):
                         break
                     pkgPath = self.__buildPath(bytes.fromhex(pkgBuildId))
                     repoSize -= pkgSize
